@@ -26,7 +26,7 @@ def _tup(t):
 
 def corr_generated(c, tier, rng, methods=("t", "i", "tl", "il")):
     quick = tier == "quick"
-    perms = []
+    perms = [([0], ())]  # rank 0
     for size in (1, 2, 3, 4):
         perms += [(list(p), (size,)) for p in itertools.permutations(range(size))]
     shapes = [(2, 2), (2, 3), (3, 2), (2, 2, 2), (1, 4), (4, 1), (2, 1, 3), (12,), (7,), (1, 1)]
@@ -51,7 +51,7 @@ def corr_generated(c, tier, rng, methods=("t", "i", "tl", "il")):
             c.case(("gperm", tuple(p), shp, m), p != sorted(p))
         c.count(f"permute-generated:rank{len(shp)}")
     bads = [([0, 0], (2,)), ([1, 2], (2,)), ([0, 2, 2], (3,)), ([3, 1, 0], (3,)), ([0, 1, 3], (3,)), ([0, -1, 2], (3,)),
-            ([0, 1, 1, 2], (2, 2)), ([4, 1, 0, 2], (2, 2)), ([0, 1, 2, 3, 4, 4], (2, 3)), ([1, 2, 3, 4], (4,))]
+            ([0, 1, 1, 2], (2, 2)), ([4, 1, 0, 2], (2, 2)), ([0, 1, 2, 3, 4, 4], (2, 3)), ([1, 2, 3, 4], (4,)), ([1], ())]
     for bad, shp in bads:
         try:
             jax.block_until_ready(B.Permute(jnp.asarray(bad).reshape(shp)).permutation)
